@@ -1,6 +1,6 @@
 #!/bin/bash
 # run every claimed check's quick command once, sequentially (what `vp check` does), and summarise
-cd "$(dirname "$0")/.."
+cd "$(dirname "$0")/.."; mkdir -p .cache
 for c in $(python3 -c "import json;print(' '.join(x['property_id'] for x in json.load(open('MANIFEST.json'))['checks']))"); do
   s=$(date +%s); ./check $c --tier ${1:-quick} > .cache/all_$c.log 2>&1; rc=$?; e=$(date +%s)
   echo "$c rc=$rc $((e-s))s $(tail -1 .cache/all_$c.log | cut -c1-150)"
